@@ -1,5 +1,8 @@
 #!/usr/bin/env python3
 """Regenerate MANIFEST.json from the rule modules (claimed set given on the command line or in tools/claimed.txt)."""
+GENERIC = (' In addition, over the modules of the property, the generic nets of DESIGN §3.1 (A15-A23): argument selection, field copy by name, '
+           'rustc unused-value diagnostics, error discipline, comparison boundaries, guard polarity and short-circuit chains, refusals stay, sibling calls stay distinct '
+           '(each one-sided: quiet on refactorings, blind to what its description does not name).')
 import importlib, json, os, sys
 V = '/verif'
 sys.path.insert(0, V + '/rules')
@@ -19,7 +22,7 @@ for pid in ids:
         'replay_cmd_template': './check %s --replay {path}' % pid,
         'engine': 'rules',
         'level_claimed': {'category': 'other',
-                          'text': 'Static decision of structural necessary conditions of the property on the type-checked program (MIR) of the current tree: ' + m.EXPLANATION,
+                          'text': 'Static decision of structural necessary conditions of the property on the type-checked program (MIR) of the current tree: ' + m.EXPLANATION + GENERIC,
                           'design_ref': 'DESIGN.md section 4, ' + pid},
         'level_note': 'Trusted base: rustc nightly MIR construction and callee resolution; the rule tables in rules/props/%s.py (confirmed by reading the pinned tree). Assumes: %s. The behavioural core of the property (its quantification over histories/schedules/inputs) is NOT decided, only the listed clauses.' % (pid.lower(), '; '.join(m.ASSUMPTIONS)),
         'technique': 'static analysis: ' + m.TECHNIQUE,
